@@ -398,6 +398,10 @@ impl<F: Float> Arithmetic<F> {
         let n = self.count as f64;
         let mean = self.sample_mean().try_f64("stats.mean")?;
         let std_dev = self.sample_std_dev().try_f64("stats.std_dev")?;
+        if !mean.is_finite() || !std_dev.is_finite() {
+            // NaN or infinite observations (or sums that overflow the float type)
+            return Err(CIError::InvalidInputData);
+        }
         let std_err_mean = std_dev / n.sqrt();
         let degrees_of_freedom = n - 1.;
         let (lo, hi) = stats::interval_bounds(confidence, mean, std_err_mean, degrees_of_freedom);
@@ -516,6 +520,10 @@ impl<F: Float> Harmonic<F> {
             return Err(error::CIError::NonPositiveValue(
                 x.to_f64().unwrap_or(f64::NAN),
             ));
+        }
+        if !x.is_finite() {
+            // 1/inf = 0 would otherwise be accumulated silently
+            return Err(error::CIError::InvalidInputData);
         }
         self.recip_space.append(F::one() / x)?;
         Ok(())
